@@ -139,7 +139,7 @@ func c14Body(c *ev.Ctx) {
 	}
 	plans := []plan{{0, false, false, []int{0}}, {0, true, true, all}, {1, true, true, []int{0, 1}}, {1, false, true, all}, {2, false, true, []int{0, 2}}, {-1, false, true, []int{0}}}
 	if !quick {
-		plans = []plan{{0, false, false, all}, {1, false, false, []int{0, 1}}, {0, true, true, all}, {1, true, true, all}, {2, false, true, all}, {-1, false, true, all}, {2, true, true, []int{0, 1}}}
+		plans = []plan{{0, false, false, []int{0}}, {0, true, true, all}, {1, true, true, all}, {2, false, true, all}, {-1, false, true, []int{0, 1, 2, 3}}, {2, true, true, []int{0, 1}}, {-1, false, true, []int{4, 5, 6}}}
 	}
 	for _, pl := range plans {
 		for _, si := range pl.scen {
